@@ -4,6 +4,7 @@ package main
 // SMT query per (obligation, path).
 
 import (
+	"math/big"
 	"fmt"
 	"go/ast"
 	"go/token"
@@ -1538,6 +1539,8 @@ func (fx *FnExec) convert(v Val, to types.Type) Val {
 		out.T = "(to_int " + v.T + ")" // floor; differs from Go truncation for negatives
 	case v.S == ts:
 		out.T = v.T
+	case v.S == SInt && ts == SStr:
+		out.T = app("runeStr", v.T) // string(rune): an uninterpreted function of the code point
 	default:
 		fx.unsupp("conversion %s -> %s", v.S, ts)
 	}
@@ -1613,9 +1616,33 @@ func (fx *FnExec) binop(st *State, in *ssa.BinOp, a, b Val, pure bool) Val {
 		if in.Op == token.NEQ {
 			out.T = not(out.T)
 		}
+	case token.SHL, token.SHR:
+		// shifts by a literal amount are exact (multiplication / floor division by a power of two);
+		// other shifts are an uninterpreted function of both operands (sound, rarely decides anything)
+		if isLiteralInt(b.T) && len(b.T) <= 2 {
+			var c uint
+			fmt.Sscan(b.T, &c)
+			p := new(big.Int).Lsh(big.NewInt(1), c).String()
+			if in.Op == token.SHR {
+				out.T = "(div " + a.T + " " + p + ")"
+			} else {
+				out.T = wrap("(* " + a.T + " " + p + ")")
+			}
+		} else if in.Op == token.SHR {
+			out.T = app("shrU", a.T, b.T)
+		} else {
+			out.T = wrap(app("shlU", a.T, b.T))
+		}
+	case token.XOR:
+		out.T = app("bxorU", a.T, b.T)
+	case token.AND_NOT:
+		out.T = app("bandnotU", a.T, b.T)
 	case token.LSS, token.LEQ, token.GTR, token.GEQ:
 		if a.S == SStr {
-			fx.unsupp("string ordering")
+			lt := map[token.Token]string{token.LSS: app("strlt", a.T, b.T), token.GTR: app("strlt", b.T, a.T),
+				token.LEQ: not(app("strlt", b.T, a.T)), token.GEQ: not(app("strlt", a.T, b.T))}[in.Op]
+			out.T = lt
+			break
 		}
 		op := map[token.Token]string{token.LSS: "<", token.LEQ: "<=", token.GTR: ">", token.GEQ: ">="}[in.Op]
 		out.T = "(" + op + " " + a.T + " " + b.T + ")"
@@ -1883,7 +1910,18 @@ func (fx *FnExec) doSlice(st *State, in *ssa.Slice) {
 		isStr = true
 	}
 	if isStr {
-		fx.unsupp("string slicing")
+		// s[lo:hi] on a string: bounds in bytes are checked; the result is an uninterpreted function of (s, lo, hi)
+		sv := fx.val(st, in.X)
+		lo, hi := "0", app("blen", sv.T)
+		if in.Low != nil {
+			lo = fx.val(st, in.Low).T
+		}
+		if in.High != nil {
+			hi = fx.val(st, in.High).T
+		}
+		fx.safety(st, "bounds", fx.siteName(in), and("(<= 0 "+lo+")", "(<= "+lo+" "+hi+")", "(<= "+hi+" "+app("blen", sv.T)+")"))
+		st.vals[in] = Val{T: eng.define(st, in.Name(), SStr, app("substr", sv.T, lo, hi)), S: SStr, GT: in.Type()}
+		return
 	}
 	lo, hi := "0", app("sl_len", base.T)
 	if in.Low != nil {
